@@ -22,7 +22,20 @@ def hMember (args : List String) (_real : Option String) : Option Out := do
   let r := Chunk.memberRangeFast n t m
   some { model := s!"{r.1} {r.2}" }
 
+/-- `member-seq N T1:m1,T2:m2,…` → `first-last …`: the same discovery asked after each membership change;
+    the model is the pure function of (N, T, m) at every step -/
+def hMemberSeq (args : List String) (real : Option String) : Option Out := do
+  let [n, steps] ← pure args | none
+  let n ← n.toNat?
+  let sts ← (steps.splitOn ",").mapM pair?
+  let rs := sts.map fun (t, m) => let r := Chunk.memberRangeFast n t m; s!"{r.1}-{r.2}"
+  let model := join rs
+  let v := match real with
+    | none => "-"
+    | some r => if r == model then "ok" else "FAIL C09.not-a-function-of-N-T-m"
+  some { model, verdict := v }
+
 def pureHandlers : List (String × (List String → Option String → Option Out)) :=
-  [("chunk", hChunk), ("member", hMember)]
+  [("chunk", hChunk), ("member", hMember), ("member-seq", hMemberSeq)]
 
 end GoDcp.Driver
